@@ -16,6 +16,7 @@
 #include "commands.h"
 
 #include <algorithm>        // for copy
+#include <filesystem>       // for equivalent
 #include <iostream>         // for operator<<, basic_ostream, ostream, cerr
 #include <iterator>         // for back_insert_iterator, back_inserter
 #include <optional>         // for optional
@@ -53,6 +54,20 @@ namespace
 
 namespace DFS
 {
+  bool is_image_file(const DFSContext& ctx, const std::string& path)
+  {
+    for (const std::string& image : ctx.image_file_names)
+      {
+	// equivalent() is true when both names refer to the same file
+	// (it follows symbolic links); it is false, with ec set, if
+	// PATH does not exist yet.
+	std::error_code ec;
+	if (std::filesystem::equivalent(path, image, ec))
+	  return true;
+      }
+    return false;
+  }
+
   CommandInterface::~CommandInterface()
   {
   }
